@@ -21,7 +21,14 @@
 //                         (3) timer expiry is provoked by replacing the timer collection with `sleep(0)`
 //                         (harness write to the field); what happens then is the real run_select.
 //   scheduling:           the rig is single-threaded: after every action all live sessions are pumped
-//                         (`run_select` under a short idle timeout) until nothing is left to do.
+//                         (`run_select` polled until it stays pending over several driver turns) until nothing
+//                         is left to do.  The rig never waits on a tokio timer or on socket readiness (blocking
+//                         std sockets for connect/accept, `try_read`, yields), so under the paused clock of the
+//                         C07/C08 harnesses virtual time moves only in `Rig::tick_to` / `Rig::wait`; on a normal
+//                         runtime (other harnesses) the same code runs in real time.
+//   time (`wait d`):      the clock is moved from one second in which a timer of a live session is due to the
+//                         next and the sessions are pumped there: which timer fires, in which order, with which
+//                         input and effect is the real run_select on real tokio timers.
 //
 // Helpers copied from `mod tests` of event/mod.rs (private there): make_global, make_tables,
 // default_peer_params, loopback_pair.
